@@ -761,7 +761,9 @@ func checkConeInset(ctx *Ctx, r *Report) {
 	need := []string{".r0", ".r1", ".height", ".n.X", ".n.Y", ".round"}
 	for _, k := range need {
 		if m[k] == nil {
-			r.check("E2", "Cone3D|fields", fn.Pos(), false, "field "+k+" not found")
+			// the cone is stored in another representation: decide the same fact on the
+			// composed closed form instead
+			coneInsetNumeric(ctx, r, fn)
 			return
 		}
 	}
@@ -793,6 +795,84 @@ func checkConeInset(ctx *Ctx, r *Report) {
 		}
 		name := []string{"base", "top"}[i]
 		r.check("E2", "Cone3D|inset-"+name+"-radius", fn.Pos(), okAll && n >= 3, fmt.Sprintf("inset %s radius + round·n lies on the nominal slope line (%d exact witnesses);%s", name, n, detail))
+	}
+}
+
+// coneInsetNumeric (E2, representation independent): rounding a cone is an inset by `round`
+// followed by an offset by `round`, so away from the rounded rims the surface is the nominal
+// one: on the axis beyond a cap the distance is |z| − height/2, and along the normal through the
+// middle of the slope it is the signed distance to the nominal slope line. A wrong inset radius
+// moves the slope. The composite of constructor and Evaluate is evaluated at such points for
+// cones with round > 0.
+func coneInsetNumeric(ctx *Ctx, r *Report, fn *ssa.Function) {
+	alts, _ := ctorAltsFollow(ctx, fn)
+	if len(alts) == 0 {
+		r.undecided("E2", "Cone3D", fn.Pos(), "constructor builds nothing")
+		return
+	}
+	savedCap := termCap
+	termCap = 200000
+	res, _, err := composeMethod(ctx, alts[len(alts)-1], "Evaluate")
+	termCap = savedCap
+	t, _ := res.(*Term)
+	if err != nil || t == nil || t.Op == "top" {
+		r.undecided("E2", "Cone3D", fn.Pos(), "cannot compose constructor and Evaluate in closed form")
+		return
+	}
+	names := []string{paramName(fn, 0), paramName(fn, 1), paramName(fn, 2), paramName(fn, 3)}
+	for i, part := range []string{"base", "top"} {
+		bad := ""
+		n := 0
+		// long slopes and small rounding radii: the rounded rims stay well away from the point
+		cfgs := [][4]float64{{12, 9, 4, 0.5}, {10, 12, 6, 0.25}, {16, 7, 3, 0.5}, {9, 14, 8, 0.5}, {20, 6, 5, 1}}
+		if i == 1 {
+			cfgs = [][4]float64{{12, 4, 9, 0.5}, {10, 6, 12, 0.25}, {16, 3, 7, 0.5}, {9, 8, 14, 0.5}, {20, 5, 6, 1}}
+		}
+		for _, c := range cfgs {
+			h, r0, r1, rd := c[0], c[1], c[2], c[3]
+			l := math.Hypot(h, r0-r1)
+			nx, nz := h/l, (r0-r1)/l
+			// the middle of the slope, moved along the normal
+			f := 0.5
+			mx, mz := r0+(r1-r0)*f, -h/2+h*f
+			for _, sft := range []float64{-0.2, 0.4, 1.5} {
+				rho, z := mx+sft*nx, mz+sft*nz
+				env := map[string]float64{names[0]: h, names[1]: r0, names[2]: r1, names[3]: rd, "p.X": rho * 0.6, "p.Y": rho * 0.8, "p.Z": z}
+				got, ok := evalFloat(t, env)
+				if !ok {
+					bad = " the composite is not a closed form of the parameters;"
+					break
+				}
+				n++
+				if math.Abs(got-sft) > 1e-9 && len(bad) < 300 {
+					bad += fmt.Sprintf(" h=%g r0=%g r1=%g round=%g: %g from the slope the value is %g;", h, r0, r1, rd, sft, got)
+				}
+			}
+			// the rounded rim is a circle of radius `round` about the corner of the inset outline:
+			// the inset cap line y = ±(h/2 − round) meets the slope moved inwards by `round`
+			vy, capN := -(h/2 - rd), -1.0
+			if i == 1 {
+				vy, capN = h/2-rd, 1.0
+			}
+			vx := r0 + (-rd-(vy+h/2)*nz)/nx
+			wx, wz := nx, nz+capN
+			wl := math.Hypot(wx, wz)
+			wx, wz = wx/wl, wz/wl
+			for _, sft := range []float64{0.3, 1} {
+				rho, z := vx+(rd+sft)*wx, vy+(rd+sft)*wz
+				env := map[string]float64{names[0]: h, names[1]: r0, names[2]: r1, names[3]: rd, "p.X": rho * 0.6, "p.Y": rho * 0.8, "p.Z": z}
+				got, ok := evalFloat(t, env)
+				if !ok {
+					bad = " the composite is not a closed form of the parameters;"
+					break
+				}
+				n++
+				if math.Abs(got-sft) > 1e-9 && len(bad) < 300 {
+					bad += fmt.Sprintf(" h=%g r0=%g r1=%g round=%g: %g outside the rounded %s rim the value is %g;", h, r0, r1, rd, sft, part, got)
+				}
+			}
+		}
+		r.check("E2", "Cone3D|inset-"+part+"-radius", fn.Pos(), bad == "" && n >= 9, fmt.Sprintf("with the %s the larger end, the rounded cone's slope is the nominal slope (%d points along the normal through the middle of the slope, round > 0);%s", part, n, bad))
 	}
 }
 
